@@ -281,7 +281,12 @@ class Context:
         def get_prototype_of(*args):
             obj = args[0] if args else UNDEFINED
             if isinstance(obj, JSFunction):
-                return self._globals["Function"].get("prototype")
+                # (the script may have replaced the global Function)
+                constructor = self._globals.get("Function")
+                if not isinstance(constructor, JSObject):
+                    return NULL
+                proto = constructor.get("prototype")
+                return proto if isinstance(proto, JSObject) else NULL
             if not isinstance(obj, JSObject):
                 return NULL
             return getattr(obj, "_prototype", NULL) or NULL
